@@ -56,7 +56,27 @@ def run(ctx) -> None:
     c13.run(Relabel(ctx, "R15.5"))
 
 
+def recreate_name(ctx) -> str:
+    """Name of the re-creation hook: the zero-argument method of ``self`` that the per-call
+    wrapper of ``ContextDecorator.__call__`` enters (``async with self.<hook>():``)."""
+    cached = ctx.__dict__.get("_recreate_name")
+    if cached:
+        return cached
+    outer = ctx.unit("contextlib.ContextDecorator.__call__")
+    name = None
+    for w in [u for u in outer.module.units.values() if u.parent is outer and u.kind == "coroutine"]:
+        for c in own_nodes(w.node):
+            if isinstance(c, ast.Call) and isinstance(c.func, ast.Attribute) and norm(c.func.value) == "self" and not c.args \
+                    and outer.cls is not None and c.func.attr in outer.cls.methods:
+                name = c.func.attr
+    if name is None:
+        name = "_recreate_cm"
+    ctx.__dict__["_recreate_name"] = name
+    return name
+
+
 def r15_1(ctx) -> None:
+    RN = recreate_name(ctx)
     outer = ctx.unit("contextlib.ContextDecorator.__call__")
     inner = [u for u in outer.module.units.values() if u.parent is outer and u.kind in ("coroutine", "asyncgen", "sync")]
     ctx.check(len(inner) == 1 and inner[0].kind == "coroutine", "R15.1", outer, "__call__",
@@ -76,10 +96,10 @@ def r15_1(ctx) -> None:
         enters = [n for n in wcfg.nodes if n.kind == "enter" and not n.tag]
         bound = name_value(ctx, w, wcfg, enters[0], cm.id) if enters else None
         cm = bound if bound is not None else cm
-    ok = isinstance(cm, ast.Call) and isinstance(cm.func, ast.Attribute) and cm.func.attr == "_recreate_cm" \
+    ok = isinstance(cm, ast.Call) and isinstance(cm.func, ast.Attribute) and cm.func.attr == RN \
         and norm(cm.func.value) == "self" and not cm.args
     ctx.check(ok, "R15.1", w, cm, "the context entered is a manager re-created inside the call (self._recreate_cm())")
-    hoisted = [n for n in own_nodes(outer.node) if isinstance(n, ast.Call) and norm(n.func).endswith("_recreate_cm")]
+    hoisted = [n for n in own_nodes(outer.node) if isinstance(n, ast.Call) and norm(n.func).endswith(RN)]
     ctx.check(not hoisted, "R15.1", outer, hoisted[0] if hoisted else "__call__",
               "the manager is not re-created once at decoration time (hoisted out of the per-call wrapper)")
     awaits = [n for n in own_nodes(w.node) if isinstance(n, ast.Await)]
@@ -102,7 +122,7 @@ def r15_1(ctx) -> None:
     orets = [n for n in own_nodes(outer.node) if isinstance(n, ast.Return)]
     ctx.check(len(orets) == 1 and norm(orets[0].value) == w.node.name, "R15.1", outer, orets[0] if orets else "__call__",
               "the decorator returns the per-call wrapper")
-    base = ctx.unit("contextlib.ContextDecorator._recreate_cm")
+    base = ctx.unit(f"contextlib.ContextDecorator.{RN}")
     brets = [n for n in own_nodes(base.node) if isinstance(n, ast.Return)]
     ctx.check(len(brets) == 1 and norm(brets[0].value) == "self", "R15.1", base, "_recreate_cm",
               "the documented default for re-entrant managers returns self")
@@ -150,7 +170,7 @@ class _RecreateOps:
 
 def r15_2(ctx) -> None:
     info = ctx.pkg.cls("contextlib._AsyncGeneratorContextManager")
-    init, rec = info.methods.get("__init__"), info.methods.get("_recreate_cm")
+    init, rec = info.methods.get("__init__"), info.methods.get(recreate_name(ctx))
     if init is None:
         raise AnalysisError("_AsyncGeneratorContextManager.__init__ missing (anchor moved)")
     if rec is None:
@@ -194,13 +214,13 @@ def r15_3(ctx) -> None:
     rets = [n for n in own_nodes(h.node) if isinstance(n, ast.Return)]
     va = h.node.args.vararg.arg if h.node.args.vararg else None
     kw = h.node.args.kwarg.arg if h.node.args.kwarg else None
-    ok = len(rets) == 1 and isinstance(rets[0].value, ast.Call) and norm(rets[0].value.func) == "_AsyncGeneratorContextManager" \
+    ok = len(rets) == 1 and isinstance(rets[0].value, ast.Call) and norm(rets[0].value.func) == ctx.pkg.cls_name("contextlib._AsyncGeneratorContextManager") \
         and [norm(a) for a in rets[0].value.args] == [f, va, kw]
     ctx.check(ok, "R15.3", h, rets[0] if rets else "helper",
               "every call of the helper constructs a new manager from the function and the call's own arguments")
     orets = [n for n in own_nodes(u.node) if isinstance(n, ast.Return)]
     ctx.check(len(orets) == 1 and norm(orets[0].value) == h.node.name, "R15.3", u, "contextmanager", "the helper is returned")
-    cached = [n for n in own_nodes(u.node) if isinstance(n, ast.Call) and norm(n.func) == "_AsyncGeneratorContextManager"]
+    cached = [n for n in own_nodes(u.node) if isinstance(n, ast.Call) and norm(n.func) == ctx.pkg.cls_name("contextlib._AsyncGeneratorContextManager")]
     ctx.check(not cached, "R15.3", u, cached[0] if cached else "contextmanager",
               "no manager instance is created at decoration time (nothing to share between calls)")
 
@@ -224,7 +244,7 @@ def r15_4(ctx) -> None:
                         if isinstance(v.func, ast.Name) and v.func.id in init.param_names():
                             one_shot = True  # stores the result of calling a user factory (a generator)
             if one_shot:
-                own = "_recreate_cm" in info.methods
+                own = recreate_name(ctx) in info.methods
                 ctx.check(own, "R15.4", f"{mod.short}.{info.name}", "_recreate_cm",
                           "a ContextDecorator subclass holding a one-shot resource overrides _recreate_cm")
             else:
